@@ -61,7 +61,7 @@ func (c15) Generate(rng *rand.Rand, tier string, st *Stats) []Case {
 		n++
 	}
 	// corpus: F-15 witness and friends
-	for _, s := range []string{"example.com/res", "a@b/c", "a@b", "b", "", "@b", "a@", "a@/r", "a b@c", "a@b c", "a@b/c/d@e", "d/r@x", "a@b@c", "/r", "a@b/"} {
+	for _, s := range []string{"d\\27artagnan@musketeers.lit/stable", "space\\20cadet@example.com", "a\\b@c\\d/e\\f", "\\", "example.com/res", "a@b/c", "a@b", "b", "", "@b", "a@", "a@/r", "a b@c", "a@b c", "a@b/c/d@e", "d/r@x", "a@b@c", "/r", "a@b/"} {
 		add("newjid", hx(s))
 	}
 	// unicode.IsSpace table, every code point (17 planes in 4096-wide windows)
@@ -70,7 +70,9 @@ func (c15) Generate(rng *rand.Rand, tier string, st *Stats) []Case {
 	}
 	st.Note("unicode.IsSpace compared with the model's isSpace on all 0x110000 code points (exhaustive)")
 	// structured triples over accepted / rejected character classes
-	okc := []string{"a", "z", "0", "-", ".", "_", "é", "日", "😀", "A", "+", "%", "!", "­"}
+	// accepted everywhere: letters, digits, punctuation that is none of the forbidden characters - among it the backslash
+	// (the escape character of XEP-0106), the other ASCII punctuation and characters next to the forbidden ones
+	okc := []string{"a", "z", "0", "-", ".", "_", "é", "日", "😀", "A", "+", "%", "!", "­", "\\", "\\20", "&", ";", "=", "?", "#", "$", "*", "(", ")", "[", "]", "{", "}", "|", "~", "^", "`", ",", "\x00", "\x1f", "\x7f", "\u2060", "\ufeff"}
 	userBad := []string{"'", "\"", ":", "<", ">"}
 	spaces := []string{" ", "\t", "\n", "\r", " ", " ", "　", "\u0085", " ", " ", " ", "\v", "\f"}
 	resc := []string{"/", "@", " ", "<", ">", "&", "'", "\""}
